@@ -484,6 +484,14 @@ class Folder:
         if self.symbolic and (isinstance(a, (Sym, Opaque)) or isinstance(b, (Sym, Opaque))) and type(n.op) in self._OPSYM \
                 and not (isinstance(a, (list, tuple)) or isinstance(b, (list, tuple))):
             return Sym(self._OPSYM[type(n.op)], [a, b])
+        if self.symbolic and isinstance(a, (list, tuple)) and isinstance(b, (list, tuple)) and len(a) == len(b) and isinstance(n.op, (ast.Div, ast.Sub, ast.Mult)) \
+                and any(isinstance(x, (Sym, Opaque)) for x in list(a) + list(b)):
+            # Python has no list / list: such an expression is the canonical form of np.divide / np.subtract / np.multiply applied to
+            # two sequences, i.e. elementwise
+            out = []
+            for x, y in zip(a, b):
+                out.append(Sym(self._OPSYM[type(n.op)], [x, y]) if isinstance(x, (Sym, Opaque)) or isinstance(y, (Sym, Opaque)) else _binop(n.op, x, y))
+            return out
         return _binop(n.op, a, b)
 
     def e_UnaryOp(self, n, env):
